@@ -102,7 +102,7 @@ var holdPoints = []string{"snap.begin", "snap.begin", "snap.fsmdone", "repl.prer
 var crashPoints = []string{
 	"term.persisted", "vote.persisted", "append.appended", "append.truncated", "append.flushed",
 	"commit.advance", "snap.fsmdone", "snap.premeta", "snap.postmeta", "snap.retained",
-	"install.stored", "install.cleared", "snaptaken.precompact", "ldr.precompact",
+	"install.stored", "install.cleared", "snaptaken.precompact", "ldr.precompact", "fsm.persist",
 }
 
 // genAction draws the next action for the current cluster state.
